@@ -4,8 +4,9 @@ import numpy as np
 from vf import gen
 
 HOMOG = gen.HOMOG_KINDS
-EXTRA_HOMOG = ["IntAffine", "IntHomogeneous", "IntSimilarity", "MirrorRotation", "ScaledHomogeneous"]     # hostile but legal representations
+EXTRA_HOMOG = ["IntAffine", "IntHomogeneous", "IntSimilarity", "MirrorRotation", "ScaledHomogeneous", "SingularLinearHomogeneous"]     # hostile but legal representations
 ALL_KINDS_2D = HOMOG + ["TransformChain", "ThinPlateSplines", "PiecewiseAffine", "PythonPWA", "WithDims"]
+DEGENERATE_2D = ["PWA_degenerate_triangle"]
 ALL_KINDS_3D = HOMOG + ["TransformChain", "WithDims"]
 
 BOX = 12.0   # PWA / TPS sources live in [-BOX, BOX]^2; probe points in the inner part
@@ -45,8 +46,15 @@ def pwa_pair(rng, n_inner=None):
         t = s @ lin.T + rng.uniform(-3, 3, 2) + rng.normal(scale=0.5, size=s.shape)
         b2 = gen.tri_area2(t, tl)
         if (np.sign(a2) == np.sign(b2)).all() and np.abs(b2).min() > 2.0:
-            return ms.TriMesh(s, trilist=tl), ms.PointCloud(t)
-    return ms.TriMesh(s, trilist=tl), ms.PointCloud(s @ lin.T)
+            break
+    else:
+        t = s @ lin.T
+    if rng.random() < 0.35:
+        # a user-supplied triangle list need not be consistently oriented: some triangles listed clockwise
+        flip = rng.random(len(tl)) < 0.4
+        tl = tl.copy()
+        tl[flip] = tl[flip][:, [0, 2, 1]]
+    return ms.TriMesh(s, trilist=tl), ms.PointCloud(t)
 
 
 def tps_pair(rng, n=None):
@@ -68,9 +76,19 @@ def make(rng, kind, d=2):
     import menpo.transform as mt
     from menpo.transform.piecewiseaffine.base import PythonPWA, CachedPWA
     from menpo.transform.rbf import R2LogR2RBF, R2LogRRBF
-    if kind in ("PiecewiseAffine", "PythonPWA"):
+    if kind in ("PiecewiseAffine", "PythonPWA", "PWA_degenerate_triangle"):
         s, t = pwa_pair(rng)
-        cls = CachedPWA if kind == "PiecewiseAffine" else PythonPWA
+        if kind == "PWA_degenerate_triangle":
+            # the source mesh lists a zero-area triangle (a repeated vertex / a vertex pair used twice) after the proper ones:
+            # it contains no point and changes nothing
+            import menpo.shape as ms
+            tl = np.asarray(s.trilist)
+            a, b = (int(v) for v in rng.choice(len(s.points), 2, replace=False))
+            extra = [[a, a, b]] if rng.random() < 0.5 else [[a, b, a]]
+            s = ms.TriMesh(s.points, trilist=np.vstack([tl, np.array(extra, dtype=tl.dtype)]))
+            cls = [CachedPWA, PythonPWA][rng.integers(0, 2)]
+        else:
+            cls = CachedPWA if kind == "PiecewiseAffine" else PythonPWA
         return cls(s, t), (lambda: cls(s.copy(), t.copy()))
     if kind == "ThinPlateSplines":
         s, t = tps_pair(rng)
@@ -109,6 +127,37 @@ def make(rng, kind, d=2):
     def build():
         return gen.transform(np.random.default_rng(seed), kind, d)
     return build(), build
+
+
+def reparameterise(rng, t, kind, d):
+    """Replace the parameters of t after construction (parameter vector of another random member / a new target).
+    Returns the object carrying the new parameters (t itself or a from_vector result), or None when not possible here."""
+    import menpo.shape as ms
+    import menpo.transform as mt
+    from menpo.transform.piecewiseaffine.base import AbstractPWA
+    if isinstance(t, (AbstractPWA, mt.ThinPlateSplines)):
+        p = t.target.points + rng.normal(scale=0.15, size=t.target.points.shape)
+        if isinstance(t, AbstractPWA):
+            tl = np.asarray(t.source.trilist)
+            if not (np.sign(gen.tri_area2(t.source.points, tl)) == np.sign(gen.tri_area2(p, tl))).all():
+                return None
+        t.set_target(ms.PointCloud(p))
+        return t
+    if not isinstance(t, mt.Homogeneous) or type(t) is mt.Homogeneous and t.h_matrix.shape[0] != t.h_matrix.shape[1]:
+        return None
+    if is_alignment(t) and rng.random() < 0.5:
+        t.set_target(ms.PointCloud(t.target.points + rng.normal(scale=0.5, size=t.target.points.shape)))
+        return t
+    try:
+        t2, _ = make(rng, kind, d)
+        v = np.array(t2.as_vector())
+        how = int(rng.integers(0, 3))
+        if how == 0:
+            return t.from_vector(v)
+        t._from_vector_inplace(v) if how == 1 else t.from_vector_inplace(v)
+        return t
+    except Exception:
+        return None
 
 
 def is_alignment(t):
